@@ -17,6 +17,8 @@ var Dir = "/repo/resources_test"
 func init() {
 	if d := os.Getenv("VERIF_FONT_DIR"); d != "" {
 		Dir = d
+	} else if r := os.Getenv("VERIF_REPO"); r != "" {
+		Dir = filepath.Join(r, "resources_test")
 	}
 }
 
